@@ -65,7 +65,23 @@ if a > 0 {
 	return callback(func(x) { abortvm(); for i := 0; i < 50; i++ { }; return x }, a)
 }
 return [callback(func(x) { return x + 1 }, a), callback(func(x) { return x * 2 }, a)]`,
+	// 11: Go modules whose value is not a map (custom Importables returning an
+	// array, a sync map, bytes): every Copier value is private per VM
+	`param a
+arr := import("arrmod")
+arr[0] = a
+arr[1].k = a
+sm := import("syncmod")
+sm.k = a
+b := import("bytesmod")
+b[0] = a & 255
+return [arr, import("arrmod"), sm, b, import("bytesmod")]`,
 }
+
+// verifObjModule: an Importable returning a ready Object.
+type verifObjModule struct{ v Object }
+
+func (m *verifObjModule) Import(string) (any, error) { return m.v, nil }
 
 func verifC08Modules() *ModuleMap {
 	mm := NewModuleMap()
@@ -88,6 +104,9 @@ return {thrower: func(x) {
 			return Int(len(args)), nil
 		}},
 	})
+	mm.Add("arrmod", &verifObjModule{v: Array{Int(1), Map{"k": Int(2)}}})
+	mm.Add("syncmod", &verifObjModule{v: &SyncMap{Value: Map{"k": Int(3)}}})
+	mm.Add("bytesmod", &verifObjModule{v: Bytes{7, 8}})
 	return mm
 }
 
